@@ -14,7 +14,8 @@ from vf.common.harness import Result
 ID = "C13"
 ENTRIES = ["metadata", "pandas-columns", "awkward-columns", "ttree", "parquet", "default", "capture-closure", "capture-global", "capture-closure-nested", "capture-global-nested"]
 RULE = (
-    "Values: text over the full alphabet (quotes, backslashes, newlines, brackets, operators, '#', non-ASCII, non-BMP), "
+    "Values: text over the full alphabet (quotes, backslashes, newlines, brackets, operators, '#', non-ASCII, non-BMP) and code-like text (words such as inf, nan, None, True, lambda, 1e999, 0x1F, escape sequences and format "
+    "fields glued with blanks, brackets, quotes and operators; also as bytes), "
     "big ints, finite floats incl. -0.0 / subnormals / 1e308, bools, None, bytes, list/tuple/dict nestings (depth<=3), each "
     "sent through every entry point that accepts its shape: MetaData(dict), AsPandasDF/AsAwkwardArray(columns), "
     "AsROOTTTree(filename, treename, columns), AsParquetFiles(filename, columns), a declared default of a typed method "
@@ -38,6 +39,14 @@ _alpha = st.one_of(
     st.characters(),
 )
 _text = st.one_of(st.text(alphabet=_alpha, max_size=8), st.sampled_from(["it's", "a\\b", "x' + 'y", "'", "\\", "\"'\"", "lambda e: e", "f'il.root", "a\nb", "\\n", "{0}", "%s", "''' '''"]))
+# code-like text: words that mean something to python / to a number parser, glued with separators (a value that is
+# rendered to text and re-parsed, or post-processed textually, is where such content gets altered or parsed as code)
+_WORDS = ["inf", "nan", "None", "True", "False", "lambda", "e", "x", "1e999", "-1", "0x1F", "1j", "__import__", "os", "and", "or", "not", "in",
+          "is", "if", "else", "for", "b", "u", "r", "f", "\\N{BULLET}", "\\x41", "\\u00e9", "%d", "{x}", "Infinity", "NaN", "null", "true", "1_000", "1.", ".5"]
+_SEPS = [" ", " ", "  ", "\t", "(", ")", "/", ".", ",", ":", "=", "+", "-", "[", "]", "{", "}", "'", '"', "\\", "\n", ";", "#", ""]
+_codelike = st.lists(st.tuples(st.sampled_from(_SEPS), st.sampled_from(_WORDS), st.sampled_from(_SEPS)), min_size=1, max_size=4).map(
+    lambda parts: "".join(a + w + b for a, w, b in parts))
+_text = st.one_of(_text, _text, _codelike)
 _floats = st.one_of(
     st.floats(allow_nan=False, allow_infinity=False),
     st.sampled_from([-0.0, 0.0, 5e-324, 1e308, 1.7976931348623157e308, 0.1, -2.5, 1e22, 1e16, 123456789.0]),
@@ -48,7 +57,7 @@ _scalars = st.one_of(
     _floats.map(lambda f: ["f", f.hex()]),
     st.booleans().map(lambda b: ["b", b]),
     st.just(["n"]),
-    st.binary(max_size=5).map(lambda y: ["y", y.hex()]),
+    st.one_of(st.binary(max_size=5), _codelike.map(lambda t: t.encode("ascii"))).map(lambda y: ["y", y.hex()]),
 )
 # dictionary keys: mostly text, sometimes another hashable scalar (a plain str key stays a plain str in the case encoding)
 _keys = st.one_of(_text, _text, _text, st.integers(-3, 300).map(lambda i: ["i", str(i)]), st.sampled_from([["b", True], ["b", False], ["n"], ["f", (0.5).hex()], ["f", (2.0).hex()], ["y", "00ff"]]))
